@@ -126,7 +126,7 @@ def run(ck: Check):
     r = rng("c16")
     cases, impl = [], []
 
-    def one(atom, data):
+    def one(atom, data, model=True):
         line, t, out = impl_load(atom, data)
         ck.count(atom)
         oracle_roundtrip(ck, atom, data, line, t, out)
@@ -151,8 +151,9 @@ def run(ck: Check):
                 ck.violation(f"[attrs] {err}: {data!r} -> {t.parts!r} {t.reducible!r}",
                              {"atom": atom, "data": data.hex(), "parts": [p.hex() for p in t.parts],
                               "reducible": t.reducible})
-        cases.append(model_load_line(atom, data))
-        impl.append(line)
+        if model:       # big files: reference tokenizer / attribute walk only
+            cases.append(model_load_line(atom, data))
+            impl.append(line)
 
     for data in strings_upto(JS_ALPHABET, 5 if quick else 6):
         one("jsstr", data)
@@ -174,6 +175,12 @@ def run(ck: Check):
     # the same object loading a second file (a library user, a second pass) splits it like a fresh object
     from props.c06 import reload_same_object
     reload_same_object(ck)
+    # files of 64 KiB and more (fast paths, windows): no backslash anywhere, quoted spans crossing line breaks,
+    # apostrophes in comments; and one with escapes
+    unit = b"var s = 'it is a string' + \"and 'another'\";\n// don't\nx = 'multi\nline' + \"q\";\n"
+    for big in (unit * 900, unit * 1100 + b"t = 'a\\'b' + \"c\\\\\";\n", b"<a b='1' c=\"2\">\n" * 5000):
+        for atom in ("jsstr", "attrs"):
+            one(atom, big, model=False)
     model = run_model(cases, shards=16)
     from coqlit import xcheck
     xcheck(ck, cases, model)
